@@ -1,4 +1,5 @@
 import HapModel.Model.NoRepl
+import HapModel.Model.Validate
 /-!
 # C14 — `--no_replacement` never copies the same stretch of a reference haplotype twice
 
@@ -40,5 +41,19 @@ theorem findCoordOld_refuted :
     (findCoordOld [(1,100,200)] (1,120,180)).1 = false ∧ overlaps (1,120,180) (1,100,200) ∧
     (findCoordOld [(1,100,200)] (1,200,300)).1 = false ∧ overlaps (1,200,300) (1,100,200) :=
   NoRepl.findCoordOld_refuted
+
+/-- parameter validation rejects panels with fewer reference samples in some model population than simulated
+    samples (with `--no_replacement`, when genotypes are to be written) -/
+theorem validate_rejects_small_panels (tol : Rat) (inp : Validate.Inputs) (n : Int)
+    (hn : inp.nSamples = some n) (hb : inp.onlyBp = false) (hnr : inp.noReplacement = true)
+    (pop : String) (hp : pop ∈ inp.pops.drop 1)
+    (hfew : ((inp.sampleInfo.filter (fun sp => sp.2 = pop)).length : Int) < n) :
+    ∀ p, Validate.validate tol inp ≠ .ok p := by
+  intro p h
+  obtain ⟨n', _, hn', _, _, _, _, _, _, _, _, _, _, hor⟩ := (Validate.validate_ok_iff tol inp p).mp h
+  rw [hn] at hn'; cases hn'
+  rcases hor with h1 | ⟨_, _, _, hpops⟩
+  · rw [hb] at h1; cases h1
+  · have := (hpops pop hp).2 hnr; omega
 
 end C14
